@@ -76,7 +76,7 @@ def cases(tier):
         out.append(c)
     for n in ((2,) if q else (2, 4)):
         for fac in ([[0.5], [2.0, 0.5]] if q else [[0.5], [2.0], [3.0], [2.0, 0.5]]):
-            if n == 4 and len(fac) > 1:
+            if n == 4 and fac != [0.5]:
                 continue
             c = {"kind": "multi", "n": n, "factors": fac, "_weight": 9 ** n * 3}
             c["_split"] = (10 if len(fac) == 1 else 14) if n == 2 else 16
